@@ -237,6 +237,13 @@ FAMILIES['C14'] = [
     # rec-everything (thorough: four processes over all five recorded objects): 27 paths with undecided solver queries and the budget exhausted: not claimed
 ]
 
+# C13 with several observers on one guard and unsubscribe (own harness; every waiter is the head of its own condition)
+def _ob(name, tier='quick', w=2, witness=False, **kw):
+    defs = ['%s=%s' % (k, v) for k, v in kw.items()] + (['WITNESS=1'] if witness else [])
+    return Family(name + ('-witness' if witness else ''), 'h_c13o.c', 'h_observers', defs, opts={'max_viol': 400, 'time_limit': 900 if tier == 'quick' else 2400},
+                  tier=tier, witness=witness, weight=w, validate=3)
+FAMILIES['C13'] += [_ob('observers-3-one-guard', NC=3, NRES=1), _ob('observers-3-one-guard', NC=3, NRES=1, witness=True), _ob('observers-3-two-guards', NC=3, NRES=2, w=8),
+                    _ob('observers-4-one-guard', NC=4, NRES=1, w=12), _ob('observers-4-two-guards', tier='thorough', NC=4, NRES=2, w=60)]
 # C13 with many waiters (own harness: the waiting list is a heap, removals in the middle move entries between subtrees)
 def _mc(name, tier='quick', w=2, witness=False, **kw):
     defs = ['%s=%s' % (k, v) for k, v in kw.items()] + (['WITNESS=1'] if witness else [])
